@@ -186,7 +186,11 @@ pub(super) fn eval_shift_expression(
         (ConstantValue::Integer(l), ConstantValue::Integer(r)) => {
             let a = match op {
                 RightShift => l.checked_shr(r.try_into()?),
-                LeftShift => l.checked_shl(r.try_into()?),
+                LeftShift => {
+                    // checked_shl() only checks the shift amount, not the shifted-out bits
+                    let n: u32 = r.try_into()?;
+                    l.checked_shl(n).filter(|a| a >> n == l)
+                }
             };
             a.map(ConstantValue::Integer)
                 .ok_or(ExpressionError::IntegerOverflow)
